@@ -18,44 +18,46 @@ CURVES = {"standard_inverse": (0.140, 0.02), "very_inverse": (13.5, 1.0), "extre
 FUSE_X = [10.0, 20.0, 50.0, 100.0, 1000.0, 1e4]
 FUSE_T_MULTISET = [1000.0, 10.0, 10.0, 0.1, 0.004]     # non-increasing selections (tie included)
 
-_FUSE_NET = None
-_RELAY_NET = None
+_FUSE_NET = {}
+_RELAY_NET = {}
+
+# switch index labels (row order is always position 0,1,2): default, a permutation of 0..2 (label != position, every label is also a
+# valid position -> a positional read silently takes another switch's value) and user-chosen labels beyond the table length
+SWITCH_LABELS = {"default": [0, 1, 2], "permuted": [2, 0, 1], "gapped": [10, 4, 7]}
 
 
 # ----------------------------------------------------------------------------------------------
 # nets
 # ----------------------------------------------------------------------------------------------
-def fuse_net():
-    """0.4 kV feeder with three line switches; the device under test sits on switch 1"""
-    global _FUSE_NET
-    if _FUSE_NET is None:
+def fuse_net(swidx="default"):
+    """0.4 kV feeder with three line switches (index labels SWITCH_LABELS[swidx]); the device under test sits on the row at position 1"""
+    if swidx not in _FUSE_NET:
         import pandapower as pp
         net = pp.create_empty_network()
         pp.create_buses(net, 4, 0.4)
         pp.create_ext_grid(net, 0, s_sc_max_mva=10., s_sc_min_mva=5., rx_max=0.1, rx_min=0.1)
         pp.create_lines_from_parameters(net, [0, 1, 2], [1, 2, 3], [0.1, 0.1, 0.1], 0.2067, 0.080424, 261., 0.27)
         net.line["endtemp_degree"] = 250
-        pp.create_switches(net, buses=[0, 1, 2], elements=[0, 1, 2], et="l", type="fuse")
+        pp.create_switches(net, buses=[0, 1, 2], elements=[0, 1, 2], et="l", type="fuse", index=SWITCH_LABELS[swidx])
         pp.create_load(net, 3, 0.05, 0.01)
-        _FUSE_NET = net
-    return copy.deepcopy(_FUSE_NET)
+        _FUSE_NET[swidx] = net
+    return copy.deepcopy(_FUSE_NET[swidx])
 
 
-def relay_net():
+def relay_net(swidx="default"):
     """20 kV radial net: ext_grid@0, lines 0:(0-1) 1:(1-2) 2:(1-3) with DIFFERENT max_i_ka, line switches
     s0->line0, s1->line2, s2->line1 (switch index != line index on purpose)"""
-    global _RELAY_NET
-    if _RELAY_NET is None:
+    if swidx not in _RELAY_NET:
         import pandapower as pp
         net = pp.create_empty_network()
         pp.create_buses(net, 4, 20., geodata=[(0, 0), (0, -1), (-1, -2), (1, -2)])
         pp.create_ext_grid(net, 0, s_sc_max_mva=100, s_sc_min_mva=50, rx_max=0.1, rx_min=0.1)
         pp.create_lines_from_parameters(net, [0, 1, 1], [1, 2, 3], [2., 5., 4.], 0.642, 0.083, 210., [0.30, 0.20, 0.25])
         net.line["endtemp_degree"] = 250
-        pp.create_switches(net, buses=[0, 1, 1], elements=[0, 2, 1], et="l", type="CB")
+        pp.create_switches(net, buses=[0, 1, 1], elements=[0, 2, 1], et="l", type="CB", index=SWITCH_LABELS[swidx])
         pp.create_loads(net, [2, 3], [2., 1.], [.5, .2])
-        _RELAY_NET = net
-    return copy.deepcopy(_RELAY_NET)
+        _RELAY_NET[swidx] = net
+    return copy.deepcopy(_RELAY_NET[swidx])
 
 
 # ----------------------------------------------------------------------------------------------
@@ -132,8 +134,9 @@ def relay_grid_ka(pickups):
 def inject(net, scenario, sw, i_ka, decoy_ka):
     """write the current into the table of the scenario (row sw); every other cell holds the decoy"""
     idx = net.switch.index
-    a = np.full(len(idx), decoy_ka, float)
-    b = np.full(len(idx), decoy_ka, float)
+    # every other cell holds a decoy (slightly different per row, all on the decoy's side of the threshold)
+    a = decoy_ka * (1.0 + 0.01 * np.arange(len(idx)))
+    b = decoy_ka * (1.0 + 0.02 * np.arange(len(idx)))
     pos = list(idx).index(sw)
     if scenario == "sc":
         a[pos] = i_ka
